@@ -16,7 +16,7 @@ import (
 func init() { Registry["C13"] = checkC13 }
 
 func checkC13(p *core.Prog, r *core.Report) {
-	r.Explanation = "Decides a stated domain of crash sites reachable from client input (connection goroutines have no recover(), checked as a fact): (R1) in every function of server/ and protocol/ that receives a text command's argument list ([]string parameter), every index args[c], args[v+c] and re-slice args[c:] is covered on its path by a length test of that list (len(args) lower bound from ==, <, <=, != tests in either polarity; v+c forms by a test of the same v against len(args)); a guard on a different expression of v does not count; (R2) every result code has an ERROR_MSG entry; (R3) the optional pointers LockCommand.Data, LockResultCommand.Data, LockManager.currentData and Lock.data are dereferenced (field access or method call) only on paths that tested them non-nil; (R4) constant indexes into client value frames (LockCommandData.Data, origin byte frames) are covered by a length test or by the frame reader's minimum length. Sites outside the domain (indices through struct fields, data-dependent offsets, loops with stride arithmetic) are counted as outside_domain and not claimed. (R5) in the text parser and stream readers an index of the form v-c (c>0) is covered by a test v >= c on its path. (R6) in the text parser every rbuf[e] has e < bufLen and every rbuf[a:b] has b <= bufLen on its path (linear entailment over the symbolic cursor and length; loop-carried locals are outside the domain); (R7) the per-connection reply buffer: every advance of the write index provably fits and the invariant index+64 <= len(buf) is re-established at every exit (inductive, assuming it at entry); (R8) the text protocol's recycled reply object has every argument-dependent field reassigned on every path before hand-over; (R9) constant and constant-bounded loop indexes into fixed-capacity tables (slices only ever made with a constant length) stay below the capacity (field cursors: only where a path fact bounds the cursor, and not in functions whose exploration exceeds the step budget). (R10) every make() whose size derives from an integer decoded from the wire (strconv parse, multi-byte word, a field holding one; parameters not followed) is bounded by the width of the decoded word (<= 32 bits) or by a test on its path - the out-of-range panic of make, not memory exhaustion. (R11) an index into a fixed-capacity table that is decoded from a client's message (protobuf request field, wire command field) is bounded by the width of its type or by a test on its path. NOT decided: integer overflow, memory exhaustion by large but representable allocations, channel/close misuse, type assertions, deadlock, stack exhaustion."
+	r.Explanation = "Decides a stated domain of crash sites reachable from client input (connection goroutines have no recover(), checked as a fact): (R1) in every function of server/ and protocol/ that receives a text command's argument list ([]string parameter), every index args[c], args[v+c] and re-slice args[c:] is covered on its path by a length test of that list (len(args) lower bound from ==, <, <=, != tests in either polarity; v+c forms by a test of the same v against len(args)); a guard on a different expression of v does not count; (R2) every result code has an ERROR_MSG entry; (R3) the optional pointers LockCommand.Data, LockResultCommand.Data, LockManager.currentData and Lock.data are dereferenced (field access or method call) only on paths that tested them non-nil; (R4) constant indexes into client value frames (LockCommandData.Data, origin byte frames) are covered by a length test or by the frame reader's minimum length. Sites outside the domain (indices through struct fields, data-dependent offsets, loops with stride arithmetic) are counted as outside_domain and not claimed. (R5) in the text parser and stream readers an index of the form v-c (c>0) is covered by a test v >= c on its path. (R6) in the text parser every rbuf[e] has e < bufLen and every rbuf[a:b] has b <= bufLen on its path (linear entailment over the symbolic cursor and length; loop-carried locals are outside the domain); (R7) the per-connection reply buffer: every advance of the write index provably fits and the invariant index+64 <= len(buf) is re-established at every exit (inductive, assuming it at entry); (R8) the text protocol's recycled reply object has every argument-dependent field reassigned on every path before hand-over; (R9) constant and constant-bounded loop indexes into fixed-capacity tables (slices only ever made with a constant length) stay below the capacity (field cursors: only where a path fact bounds the cursor, and not in functions whose exploration exceeds the step budget). (R10) every make() whose size derives from an integer decoded from the wire (strconv parse, multi-byte word, a field holding one; parameters not followed) is bounded by the width of the decoded word (<= 32 bits) or by a test on its path - the out-of-range panic of make, not memory exhaustion. (R11) an index into a fixed-capacity table that is decoded from a client's message (protobuf request field, wire command field) is bounded by the width of its type or by a test on its path. (R12) in the value operations every slice of the stored frame whose bound contains a length supplied by the request stays within the frame by the path's comparisons (linear entailment). NOT decided: integer overflow, memory exhaustion by large but representable allocations, channel/close misuse, type assertions, deadlock, stack exhaustion."
 	r.Assumptions = []string{"Go type checker and go/ssa are correct for /repo", "a handler dispatched through a command registry receives the parsed command with its name at args[0] (len(args) >= 1)", "a panic in any goroutine started for a connection kills the process (no recover in Server.handle: asserted)"}
 	c13NoRecover(p, r)
 	c13R1(p, r)
@@ -29,6 +29,7 @@ func checkC13(p *core.Prog, r *core.Report) {
 	c13R8(p, r)
 	c13R9(p, r)
 	c13R10(p, r)
+	c13R12(p, r)
 }
 
 // c13NoRecover asserts the premise that makes every panic fatal.
@@ -1670,4 +1671,146 @@ func c13WireIndex(v ssa.Value, isWire func(ssa.Value) bool) (bool, int64) {
 		}
 	}
 	return false, width
+}
+
+// ---------------------------------------------------------------------------
+// R12: the value operations cut the key's stored frame with lengths the
+// request supplies (SHIFT n). A slice expression on the stored frame whose
+// bound contains such a length must be within the frame on every path, by the
+// path's own comparisons (linear entailment); otherwise one request with a
+// large length panics under the shard mutex in the connection's goroutine.
+func c13R12(p *core.Prog, r *core.Report) {
+	const rule = "C13/R12"
+	r.Rule(rule, "ProcessLockData: every slice of the stored value frame whose bound contains a length taken from the request (an integer accessor of the request's data) is within the frame by the path's comparisons", 2)
+	fn := mustFunc(p, r, "server.(*LockManager).ProcessLockData")
+	if fn == nil {
+		return
+	}
+	isRequestLength := func(s string) bool {
+		// an integer accessor of the request's data frame: Get...Value(<request>.Data)
+		i := strings.Index(s, "Get")
+		for i >= 0 {
+			rest := s[i:]
+			if j := strings.Index(rest, "("); j > 0 {
+				name := rest[:j]
+				if strings.HasSuffix(name, "Value") && !strings.Contains(name, " ") && strings.Contains(rest[j:], ".Data)") {
+					return true
+				}
+			}
+			k := strings.Index(s[i+3:], "Get")
+			if k < 0 {
+				break
+			}
+			i += 3 + k
+		}
+		return false
+	}
+	// does the SSA value contain a phi one of whose alternatives is a request accessor
+	var requestPhi func(v ssa.Value) bool
+	requestPhi = func(v ssa.Value) bool {
+		seen := map[ssa.Value]bool{}
+		var walk func(v ssa.Value, d int) bool
+		walk = func(v ssa.Value, d int) bool {
+			if d > 8 || seen[v] {
+				return false
+			}
+			seen[v] = true
+			switch t := v.(type) {
+			case *ssa.Phi:
+				for _, e := range t.Edges {
+					if walk(e, d+1) {
+						return true
+					}
+				}
+			case *ssa.BinOp:
+				return walk(t.X, d+1) || walk(t.Y, d+1)
+			case *ssa.Convert:
+				return walk(t.X, d+1)
+			case *ssa.Call:
+				if callee := t.Common().StaticCallee(); callee != nil && strings.HasPrefix(callee.Name(), "Get") && strings.HasSuffix(callee.Name(), "Value") && recvName(callee) == "LockCommandData" {
+					return true
+				}
+			}
+			return false
+		}
+		return walk(v, 0)
+	}
+	n := 0
+	done := map[string]bool{}
+	ex := core.NewExplorer(p, core.Hooks{
+		Track: func(x *core.X, a core.Atom) bool { return isRequestLength(a.String()) },
+		ResolvePhi: func(phi *ssa.Phi) bool {
+			// a request length merged with its clamp: follow each alternative on its own path
+			for _, e := range phi.Edges {
+				v := e
+				for {
+					if c, ok := v.(*ssa.Convert); ok {
+						v = c.X
+						continue
+					}
+					break
+				}
+				if c, ok := v.(*ssa.Call); ok {
+					if callee := c.Common().StaticCallee(); callee != nil && strings.HasPrefix(callee.Name(), "Get") && strings.HasSuffix(callee.Name(), "Value") {
+						return true
+					}
+				}
+			}
+			return false
+		},
+		Instr: func(x *core.X) {
+			if !x.Top() {
+				return
+			}
+			sl, ok := x.Ins.(*ssa.Slice)
+			if !ok {
+				return
+			}
+			base := core.Plain(x.Canon(sl.X).S)
+			if !strings.HasSuffix(base, "urrentData.data") && !strings.HasSuffix(base, "LockData.data") {
+				return
+			}
+			var facts []core.Lin
+			for _, a := range x.St.Facts.All() {
+				pa := core.Atom{L: core.Plain(a.L), Op: a.Op, R: core.Plain(a.R)}
+				facts = append(facts, core.AtomLin(pa)...)
+			}
+			for h := range x.St.Hist {
+				if at, ok := core.ParseAtom(core.Plain(h)); ok {
+					facts = append(facts, core.AtomLin(at)...)
+				}
+			}
+			for which, b := range map[string]ssa.Value{"low": sl.Low, "high": sl.High} {
+				if b == nil {
+					continue
+				}
+				e := core.Plain(x.Canon(b).S)
+				if !isRequestLength(e) && !strings.Contains(e, "len("+base+")") {
+					continue
+				}
+				if !isRequestLength(e) && !requestPhi(b) {
+					continue
+				}
+				key := fmt.Sprintf("server.(*LockManager).ProcessLockData: stored frame %s bound %s", which, stable(e))
+				n++
+				target := core.ParseLin("len(" + base + ")").Sub(core.ParseLin(e))
+				if core.LinEntails(facts, target) {
+					if !done[key] {
+						r.Hold(rule, key, x.Pos(), "within the frame by the path's comparisons")
+					}
+				} else {
+					r.Violate(rule, key, x.Pos(), "the stored frame "+base+" is sliced at "+e+", which contains a length supplied by the request, and the path's comparisons do not keep it within the frame: a request with a large length panics (slice bounds out of range) under the shard mutex in the connection's goroutine", x.St.Trace)
+				}
+				done[key] = true
+			}
+		},
+	})
+	ex.MaxSteps = 400000
+	ex.Run(fn, nil)
+	if ex.Imprecise != "" {
+		r.Fail("C13/R12: %s", ex.Imprecise)
+	}
+	if n == 0 {
+		r.Fail("C13/R12: no slice of the stored frame bounded by a request length found")
+	}
 }
